@@ -20,7 +20,7 @@ _why = {
     201: "farm.pool_creation_fee.nil-amount", 202: "farm.tax_rate.nil", 203: "farm.pool_creation_fee.dec-overflow",
     204: "farm.pool_creation_fee.invalid-denom", 205: "farm.tax_rate.negative-tax", 206: "farm.tax_rate.tax-exceeds-fee",
     301: "htlc.asset.invalid-denom", 311: "htlc.min_swap_amount.nil", 312: "htlc.max_swap_amount.nil", 313: "htlc.supply_limit.nil",
-    314: "htlc.supply_limit.negative", 315: "htlc.time_based_limit.nil", 316: "htlc.time_based_limit.negative", 317: "htlc.fixed_fee.nil",
+    314: "htlc.supply_limit.negative", 315: "htlc.time_based_limit.nil", 316: "htlc.time_based_limit.negative", 317: "htlc.fixed_fee.nil", 318: "htlc.fixed_fee.int-overflow",
     401: "service.min_deposit_multiple.negative", 411: "service.service_fee_tax.nil", 412: "service.service_fee_tax.dec-overflow",
     413: "service.service_fee_tax.negative-tax", 421: "service.slash_fraction.nil", 422: "service.slash_fraction.dec-overflow",
     423: "service.slash_fraction.negative-slash", 424: "service.base_denom.invalid",
